@@ -1336,8 +1336,9 @@ theorem listen_reply_waits (c : Ctx) (now : Int) (src coll : Nat) (hst : c.s.st 
     have : ¬ SyncOver (stamped c.s now) now := fun h => hw ((syncOver_stamped c.s now).mp h)
     simpa [SyncOver] using this
   unfold doListenToken
-  rw [hst]
-  simp only [handleLostToken_none c now hl, stamped_st, hst, hw', if_true, sync_stamped, stamped_stamped]
+  -- rewrite `handleLostToken` to a constructor pair BEFORE the iota steps (kernel: 60 s otherwise)
+  rw [handleLostToken_none c now hl, hst]
+  simp only [stamped_st, hst, hw', if_true, sync_stamped, stamped_stamped]
 
 /-- **`status_reply_truthful` (ListenToken)**: at the first poll after the pause the station sends ONE
 status response to the requester, with its own address as SA, reporting
@@ -1353,8 +1354,8 @@ theorem listen_reply (c : Ctx) (now : Int) (src coll : Nat) (hst : c.s.st = .lis
           st := if c.s.ring.readyForRing = true then FState.activeIdle none none 0 else FState.listenToken none coll } } := by
   have hw' : (waitSyncPause (stamped c.s now) now).2 = false := (syncOver_stamped c.s now).mpr hw
   unfold doListenToken
-  rw [hst]
-  simp only [handleLostToken_none c now hl, stamped_st, hst, hw', Bool.false_eq_true, if_false, sync_stamped,
+  rw [handleLostToken_none c now hl, hst]
+  simp only [stamped_st, hst, hw', Bool.false_eq_true, if_false, sync_stamped,
     stamped_stamped, stamped_ring, stamped_p]
   have hser := statusResponse_serialize src c.s.p.address (listenReport c.s src)
   unfold listenReport at hser
@@ -1371,8 +1372,8 @@ theorem active_idle_reply_waits (c : Ctx) (now : Int) (src : Nat) (np : Option N
     have : ¬ SyncOver (stamped c.s now) now := fun h => hw ((syncOver_stamped c.s now).mp h)
     simpa [SyncOver] using this
   unfold doActiveIdle
-  rw [hst]
-  simp only [handleLostToken_none c now hl, stamped_st, hst, hw', if_true, sync_stamped, stamped_stamped]
+  rw [handleLostToken_none c now hl, hst]
+  simp only [stamped_st, hst, hw', if_true, sync_stamped, stamped_stamped]
 
 /-- **`status_reply_truthful` (ActiveIdle)**: … then ONE status response to the requester reporting
 `MasterInRing`; the request is consumed, everything else stays. -/
@@ -1385,8 +1386,8 @@ theorem active_idle_reply (c : Ctx) (now : Int) (src : Nat) (np : Option Nat) (c
         s := { (markTx (stamped c.s now) now 6) with st := .activeIdle none np coll } } := by
   have hw' : (waitSyncPause (stamped c.s now) now).2 = false := (syncOver_stamped c.s now).mpr hw
   unfold doActiveIdle
-  rw [hst]
-  simp only [handleLostToken_none c now hl, stamped_st, hst, hw', Bool.false_eq_true, if_false, sync_stamped,
+  rw [handleLostToken_none c now hl, hst]
+  simp only [stamped_st, hst, hw', Bool.false_eq_true, if_false, sync_stamped,
     stamped_stamped, stamped_p]
   have hser := statusResponse_serialize src c.s.p.address .masterInRing
   simp only [encodeOrPanic, hser, transmit, htx, Res.bind, statusResponseBytes_length]
@@ -1407,8 +1408,8 @@ theorem listen_transmits_only_reply (c c' : Ctx) (now : Int) (sr : Option Nat) (
   · left
     refine ⟨hl, ?_⟩
     unfold doListenToken at h
-    rw [hst] at h
-    simp only [handleLostToken_lost c now hl, toClaimToken, stamped_st, hst] at h
+    rw [handleLostToken_lost c now hl, hst] at h
+    simp only [toClaimToken, stamped_st, hst] at h
     obtain ⟨c1, hc1⟩ : ∃ c1 : Ctx, c1 = { c with s := { (stamped c.s now) with st := .claimToken .firstToken } } := ⟨_, rfl⟩
     rw [← hc1] at h
     have h1 : c1.s.st = .claimToken .firstToken := by rw [hc1]
@@ -1439,8 +1440,8 @@ theorem listen_transmits_only_reply (c c' : Ctx) (now : Int) (sr : Option Nat) (
     | none =>
       exfalso
       unfold doListenToken at h
-      rw [hst] at h
-      simp only [handleLostToken_none c now hl, stamped_st, hst] at h
+      rw [handleLostToken_none c now hl, hst] at h
+      simp only [stamped_st, hst] at h
       split at h
       · cases h
       · cases h
@@ -1460,8 +1461,8 @@ theorem active_idle_transmits_only_reply (c c' : Ctx) (now : Int) (sr np : Optio
   · left
     refine ⟨hl, ?_⟩
     unfold doActiveIdle at h
-    rw [hst] at h
-    simp only [handleLostToken_lost c now hl, toClaimToken, stamped_st, hst] at h
+    rw [handleLostToken_lost c now hl, hst] at h
+    simp only [toClaimToken, stamped_st, hst] at h
     obtain ⟨c1, hc1⟩ : ∃ c1 : Ctx, c1 = { c with s := { (stamped c.s now) with st := .claimToken .firstToken } } := ⟨_, rfl⟩
     rw [← hc1] at h
     have h1 : c1.s.st = .claimToken .firstToken := by rw [hc1]
@@ -1492,8 +1493,8 @@ theorem active_idle_transmits_only_reply (c c' : Ctx) (now : Int) (sr np : Optio
     | none =>
       exfalso
       unfold doActiveIdle at h
-      rw [hst] at h
-      simp only [handleLostToken_none c now hl, stamped_st, hst] at h
+      rw [handleLostToken_none c now hl, hst] at h
+      simp only [stamped_st, hst] at h
       split at h
       · cases h
       · cases h
